@@ -3,15 +3,52 @@ import GcArena.Model.WriteCap
 namespace GcArena.WriteCap
 
 theorem Table.ok_unpack {t : Table} (h : t.ok = true) :
-    (∀ c, c ∈ t.ctors → c.ok = true) ∧ (∀ p, p ∈ t.projs → p.ok = true) ∧
+    (∀ c, c ∈ t.ctors → c.ok = true) ∧ (∀ p, p ∈ t.projs → p.ok t.projs = true) ∧
     (∀ u, u ∈ t.unlocks → u.ok = true) ∧ (∀ f, f ∈ t.lockFns → f.ok = true) ∧
-    t.fieldMacro = .byPattern := by
+    t.fieldMacro = .byPattern ∧ (∀ r, r ∈ t.rawSites → r.ok = true) ∧
+    t.markerTraitsUnsafe = true := by
   simp only [Table.ok, Bool.and_eq_true, List.all_eq_true, beq_iff_eq] at h
-  obtain ⟨⟨⟨⟨⟨⟨_, h1⟩, h2⟩, h3⟩, h4⟩, h5⟩, _⟩ := h
-  exact ⟨h1, h2, h3, h4, h5⟩
+  obtain ⟨⟨⟨⟨⟨⟨⟨⟨_, h1⟩, h2⟩, h3⟩, h4⟩, h5⟩, _⟩, h7⟩, h8⟩ := h
+  exact ⟨h1, h2, h3, h4, h5, h7, h8⟩
 
 theorem holders_projPlace_exclusive (env : Env) (cls : OwnClass) (p : Place) (k : Nat)
     (h : cls.exclusive = true) : holders env (projPlace cls p k) = holders env p := by
   cases cls <;> simp_all [OwnClass.exclusive, projPlace, holders]
+
+/-! Entries used by `Props/C13.mutant_witness` and the non-vacuity examples: the six slice
+entries as extracted, the `Vec` entry as it is in the crate, and the mutated one. -/
+namespace Example
+
+def sliceEntries : List ProjImpl :=
+  ["usize", "Range<usize>", "RangeFrom<usize>", "RangeInclusive<usize>", "RangeTo<usize>",
+   "RangeToInclusive<usize>"].map (fun i =>
+    { kind := .index, recv := .slice, text := "<T> IndexWrite<" ++ i ++ "> for [T]",
+      targetStatic := false, idx := .concrete, gate := "" })
+
+/-- `unsafe impl<T, I> IndexWrite<I> for Vec<T> where [T]: IndexWrite<I>, Self: Index<I> {}` -/
+def vecCurrent : ProjImpl :=
+  { kind := .index, recv := .vec,
+    text := "<T, I> IndexWrite<I> for Vec<T> where [T]: IndexWrite<I>, Self: Index<I>",
+    targetStatic := false, idx := .delegates .slice, gate := "" }
+
+/-- `unsafe impl<T, I> IndexWrite<I> for Vec<T> where Self: Index<I> {}` -/
+def vecMutant : ProjImpl :=
+  { kind := .index, recv := .vec, text := "<T, I> IndexWrite<I> for Vec<T> where Self: Index<I>",
+    targetStatic := false, idx := .unconstrained, gate := "" }
+
+/-- `unsafe impl<T, I, const N: usize> IndexWrite<I> for [T; N] where [T]: Index<I> {}`
+(std's array impl forwards to `<[T] as Index<I>>::index`, which a client may write). -/
+def arrayMutant : ProjImpl :=
+  { kind := .index, recv := .array, text := "<T, I, const N: usize> IndexWrite<I> for [T; N] where [T]: Index<I>",
+    targetStatic := false, idx := .unconstrained, gate := "" }
+
+def gcWriteCtor : Ctor := ⟨"Gc::write", .gcWrite, false, false, true⟩
+
+def tableWith (projs : List ProjImpl) : Table :=
+  { ctors := [gcWriteCtor], projs := projs, unlocks := [⟨"RefLock", true, true⟩], cells := [],
+    lockFns := [], rawSites := [⟨"Write::unlock", false, true, false⟩], fieldMacro := .byPattern,
+    writeNonExhaustive := true, markerTraitsUnsafe := true, unclassified := [] }
+
+end Example
 
 end GcArena.WriteCap
